@@ -24,12 +24,44 @@ def havoc_like(v, name):
     return f
 
 
-def written_sets(ex, body_runner, st):
-    """Dry run of the body from an all-havoc state; returns (vars, heap fields) that change."""
+def maybe_assigned(node, spec):
+    """Names the loop may rebind or mutate, syntactically: assignment / for / del targets, bases of subscript or
+    attribute stores, receivers of method calls, and ghost assignments of the contract.  None = unknown (all)."""
+    out = set()
+
+    def base_name(e):
+        while isinstance(e, (ast.Subscript, ast.Attribute)):
+            e = e.value
+        return e.id if isinstance(e, ast.Name) else None
+    for n in ast.walk(node):
+        if isinstance(n, ast.Name) and isinstance(n.ctx, (ast.Store, ast.Del)):
+            out.add(n.id)
+        elif isinstance(n, (ast.Subscript, ast.Attribute)) and isinstance(n.ctx, (ast.Store, ast.Del)):
+            b = base_name(n)
+            if b:
+                out.add(b)
+        elif isinstance(n, ast.Call) and isinstance(n.func, ast.Attribute):
+            b = base_name(n.func.value)
+            if b:
+                out.add(b)
+    if spec is not None:
+        for hints in spec.at.values():
+            for h in hints:
+                t = h[1] if isinstance(h, tuple) else h
+                if isinstance(t, str) and t.startswith("ghost "):
+                    out.add(t[6:].split("=", 1)[0].strip())
+    out.add("$alloc")
+    return out
+
+
+def written_sets(ex, body_runner, st, node=None):
+    """Dry run of the body from a havoc state; returns (vars, heap fields) that change.  Variables the loop cannot
+    assign (syntactically) keep their value, so that constants stay constants in the dry run."""
     ctx = ex.ctx
     n_h, n_o = len(ctx.hyps), len(ctx.obls)
     saved_drop = list(ctx.dropped)
-    dry = State({k: havoc_like(v, "dry_" + k) for k, v in st.vars.items()}, {}, TRUE)
+    may = maybe_assigned(node, ex.spec) if node is not None else None
+    dry = State({k: (havoc_like(v, "dry_" + k) if may is None or k in may else v) for k, v in st.vars.items()}, {}, TRUE)
     for key in list(ex.ctx.reg.fields):
         k = ex.ctx.reg.fields[key]
         dry.heap[key] = [z3.Const(uid("dryH_%s_%s" % key), z3.ArraySort(z3.IntSort(), s)) for s in flat(k)]
@@ -216,7 +248,7 @@ def cut_loop(ex, node, st, lid, lspec, it, guard, auto_range):
             ex.eval(node.test, dry)
         o = ex.exec_block(node.body, dry)
         return merge(o.normal, o.cont)
-    wv, wh = written_sets(ex, body_runner, st)
+    wv, wh = written_sets(ex, body_runner, st, node)
     # loop-carried variables whose kind widens in the body (somme = 0 ... somme += float)
     widened = False
     for v, k in list(wv.items()):
@@ -230,7 +262,7 @@ def cut_loop(ex, node, st, lid, lspec, it, guard, auto_range):
                 st.vars[v], _ = coerce(cur, jk)
                 widened = True
     if widened:
-        wv, wh2 = written_sets(ex, body_runner, st)
+        wv, wh2 = written_sets(ex, body_runner, st, node)
         wh |= wh2
     wv = set(wv)
     if lspec.modifies is not None:
@@ -259,6 +291,7 @@ def cut_loop(ex, node, st, lid, lspec, it, guard, auto_range):
         for key in wh:
             k = ctx.reg.fields[key]
             h.heap[key] = [z3.Const(uid("H_%s_%s" % key), z3.ArraySort(z3.IntSort(), s)) for s in flat(k)]
+            ex.assume_list_lengths(k, h.heap[key])
         if "$alloc" in wv and "$alloc" in st.vars and h.vars.get("$alloc") is not None:
             # the allocation counter only grows (A-ALLOC)
             ctx.assume(h, h.vars["$alloc"].terms[0] >= st.vars["$alloc"].terms[0])
